@@ -16,7 +16,11 @@ def backend_wiring(ctx, rep, rule, only_fields=None):
     lits = []
     for f in [fl] + [g for g in fns if not (g['file'] == fl['file'] and g['name'] == fl['name'])]:
         for st in f['structs']:
-            if st['path'].split('::')[-1] in SECTION:
+            nm = st['path'].split('::')[-1]
+            if nm == 'Self':        # `impl From<XParams> for X { fn from(p) -> Self { Self { .. } } }`
+                nm = (f.get('self_ty') or '').split('<')[0].split('::')[-1]
+                st = dict(st, path=nm)
+            if nm in SECTION:
                 lits.append((f, st))
     have = {st['path'].split('::')[-1] for _, st in lits}
     rep.floor(rule, 'backends constructed somewhere in the CLI crate', len(have), 6)
